@@ -457,44 +457,85 @@ func runFullStack(e *core.Env) {
 			}
 		}
 	}
-	for _, u := range tp.Perm(n) {
-		for _, v := range tp.Perm(n) {
-			if u == v || !tp.Chance(2, 3) {
-				continue
-			}
-			U, V := ms.Insts[u], ms.Insts[v]
-			ms.TakeProbes()
-			payload := fmt.Sprintf("req %d>%d", u, v)
-			if err := ms.SendProbe(u, v, payload); err != nil {
-				e.Fail("full-stack/request-not-routable", "%s cannot route a request to %s in a converged mesh: %v", U.Name, V.Name, err)
-			}
-			ms.CN.RunFor(tp, 2*time.Second, 20000)
-			got := false
-			for _, g := range ms.TakeProbes() {
-				if g.Payload != payload {
+	requests := func(tag string) {
+		for _, u := range tp.Perm(n) {
+			for _, v := range tp.Perm(n) {
+				if u == v || !tp.Chance(2, 3) {
 					continue
 				}
-				if g.At != v {
-					e.Fail("full-stack/request-handled-at-wrong-router", "request %s>%s was handed to the handlers of %s", U.Name, V.Name, ms.Insts[g.At].Name)
+				U, V := ms.Insts[u], ms.Insts[v]
+				ms.TakeProbes()
+				payload := fmt.Sprintf("req %d>%d", u, v)
+				if err := ms.SendProbe(u, v, payload); err != nil {
+					e.Fail("full-stack"+tag+"/request-not-routable", "%s cannot route a request to %s in a converged mesh: %v", U.Name, V.Name, err)
 				}
-				if got {
-					e.Fail("full-stack/request-handled-twice", "request %s>%s was handed to the destination's handlers twice", U.Name, V.Name)
+				ms.CN.RunFor(tp, 2*time.Second, 20000)
+				got := false
+				for _, g := range ms.TakeProbes() {
+					if g.Payload != payload {
+						continue
+					}
+					if g.At != v {
+						e.Fail("full-stack"+tag+"/request-handled-at-wrong-router", "request %s>%s was handed to the handlers of %s", U.Name, V.Name, ms.Insts[g.At].Name)
+					}
+					if got {
+						e.Fail("full-stack"+tag+"/request-handled-twice", "request %s>%s was handed to the destination's handlers twice", U.Name, V.Name)
+					}
+					got = true
 				}
-				got = true
+				if !got {
+					e.Fail("full-stack"+tag+"/request-not-delivered", "%s mesh of %d real instances, edges %v: request %s>%s was not handed to the destination", ms.Kind, n, ms.Edges, U.Name, V.Name)
+				}
+				notify, _, err := U.In.Router().PingPong.Send(V.IP, false, 0)
+				if err != nil {
+					e.Fail("full-stack"+tag+"/request-not-routable", "%s cannot send a ping to %s in a converged mesh: %v", U.Name, V.Name, err)
+				}
+				ms.CN.RunFor(tp, 2*time.Second, 20000)
+				select {
+				case <-notify:
+					e.Probe("fullstack_reply_reached_requester")
+				default:
+					e.Fail("full-stack"+tag+"/reply-does-not-reach-requester", "%s mesh of %d real instances, edges %v: %s pinged %s, no answer reached it within 2 s", ms.Kind, n, ms.Edges, U.Name, V.Name)
+				}
 			}
-			if !got {
-				e.Fail("full-stack/request-not-delivered", "%s mesh of %d real instances, edges %v: request %s>%s was not handed to the destination", ms.Kind, n, ms.Edges, U.Name, V.Name)
+		}
+	}
+	requests("")
+	// In half of the runs a connection then breaks (EOF or I/O error); the shipped connect
+	// manager dials again, every router announces itself once more - the mesh is converged
+	// again, over a new link between two of its routers - and the same is demanded.
+	if tp.Chance(1, 2) {
+		var live []*simnet.ConnPair
+		for _, p := range ms.CN.Pairs() {
+			if !p.A.IsClosed() && !p.B.IsClosed() {
+				live = append(live, p)
 			}
-			notify, _, err := U.In.Router().PingPong.Send(V.IP, false, 0)
-			if err != nil {
-				e.Fail("full-stack/request-not-routable", "%s cannot send a ping to %s in a converged mesh: %v", U.Name, V.Name, err)
+		}
+		if len(live) > 0 {
+			p := live[tp.Intn(len(live))]
+			if tp.Chance(1, 2) {
+				p.A.FailReads(simnet.ErrSimIO)
+			} else {
+				ms.CN.DeliverBytes(p.B, nil, true)
 			}
-			ms.CN.RunFor(tp, 2*time.Second, 20000)
-			select {
-			case <-notify:
-				e.Probe("fullstack_reply_reached_requester")
-			default:
-				e.Fail("full-stack/reply-does-not-reach-requester", "%s mesh of %d real instances, edges %v: %s pinged %s, no answer reached it within 2 s", ms.Kind, n, ms.Edges, U.Name, V.Name)
+			e.Fault("link_break")
+			ms.CN.RunFor(tp, 5*time.Second, 40000)
+			if ms.Converge() {
+				reconverged := true
+				for u := 0; u < n && reconverged; u++ {
+					for v := 0; v < n; v++ {
+						if u == v {
+							continue
+						}
+						if rte, isDst := ms.Insts[u].In.RoutingTable().LookupNearest(ms.Insts[v].IP); rte == nil || !isDst {
+							reconverged = false
+						}
+					}
+				}
+				if reconverged {
+					requests("/after-a-connection-broke-and-was-redialled")
+					e.Probe("fullstack_requests_after_redial")
+				}
 			}
 		}
 	}
